@@ -15,7 +15,7 @@ import (
 
 type Row = map[string]any
 
-const baseTs int64 = 1700000000000 // ms; far from the 24 h future guard
+const baseTs int64 = 1700000040000 // ms; multiple of every size/slide used (250ms…60s, 3s, 5s); far from the 24 h future guard
 
 // ---- typed values --------------------------------------------------------------------------
 
@@ -79,15 +79,36 @@ func toF(v any) (float64, bool) {
 }
 
 func toI(v any) (int64, bool) {
-	f, ok := toF(v)
-	if !ok {
-		if s, ok2 := v.(string); ok2 {
-			n, err := strconv.ParseInt(s, 10, 64)
-			return n, err == nil
-		}
-		return 0, false
+	switch x := v.(type) {
+	case int:
+		return int64(x), true
+	case int8:
+		return int64(x), true
+	case int16:
+		return int64(x), true
+	case int32:
+		return int64(x), true
+	case int64:
+		return x, true
+	case uint:
+		return int64(x), true
+	case uint8:
+		return int64(x), true
+	case uint16:
+		return int64(x), true
+	case uint32:
+		return int64(x), true
+	case uint64:
+		return int64(x), true
+	case float64:
+		return int64(x), true
+	case float32:
+		return int64(x), true
+	case string:
+		n, err := strconv.ParseInt(x, 10, 64)
+		return n, err == nil
 	}
-	return int64(f), true
+	return 0, false
 }
 
 // idList converts a collect(id) result into ints.
